@@ -148,6 +148,29 @@ class Session:
                 raise Violation("C19/close-count", {"before": n0, "after": len(mx.get_models())})
             self.compare(before, "close", mach)
             self.check_registry("close")
+        elif k == "stale":
+            # an operation through the handle of a model that was closed earlier: it may raise or do nothing, but it must
+            # not touch an open model that now has that name
+            if not self.closed:
+                return
+            dead = self.closed[op["i"] % len(self.closed)]
+            before = self.snapshot()
+            names0 = sorted(mx.get_models())
+            try:
+                if op["what"] == "close":
+                    dead.world.m.close()
+                elif op["what"] == "rename":
+                    dead.world.m.rename(op["name"], rename_old=op.get("rename_old", False))
+                outcome = "ok"
+            except Exception as e:
+                outcome = type(e).__name__
+            self.events.append("stale %s -> %s" % (op["what"], outcome))
+            self.ctx.count("stale_handle_operations", 1, "reach")
+            if sorted(mx.get_models()) != names0:
+                raise Violation("C19/closed-model-handle-changed-the-registry/" + op["what"],
+                                {"before": names0, "after": sorted(mx.get_models()), "outcome": outcome})
+            self.compare(before, "stale-" + op["what"], None)
+            self.check_registry("stale-" + op["what"])
         elif k == "write":
             if self.dir is None:
                 self.dir = self.ctx.tmpdir("c19")
@@ -237,7 +260,12 @@ class Session:
             return {"op": "new_model", "name": name, "build": rng.random() < 0.7}
         mach = rng.choice(self.machs)
         if r < self.cfg["p_registry"]:
-            k = rng.choice(["rename", "rename", "close", "write", "read_model", "new_model", "cross_ref"])
+            k = rng.choice(["rename", "rename", "close", "write", "read_model", "new_model", "cross_ref", "stale"])
+            if k == "stale":
+                if not self.closed:
+                    return None
+                return {"op": "stale", "i": rng.randrange(100), "what": rng.choice(["close", "rename"]),
+                        "name": rng.choice(NAMES), "rename_old": rng.random() < 0.5}
             if k == "rename":
                 name = rng.choice(NAMES) if rng.random() < 0.85 else rng.choice(["1x", "a b", "_m"])
                 return {"op": "rename", "m": mach.tag, "name": name, "rename_old": rng.random() < 0.5}
